@@ -203,7 +203,7 @@ def materialise(scn, d, scheme='structural', name_tables=False):
     cfg = scn['cfg']
     Q = np.array(scn.get('Qf', scn['Q']), dtype=float).reshape((len(scn['cells']), len(scn['qgenes'])))
     write_h5ad(d / 'q.h5ad', Q, [nm.cell(c) for c in scn['cells']],
-               [query_gene_name(g, scheme, G) for g in scn['qgenes']], cfg.get('enc', 'dense'))
+               [query_gene_name(g, scheme, G) for g in scn['qgenes']], cfg.get('enc', 'dense'), dtype=cfg.get('qdtype'))
     mk = {}
     for k, v in scn['markers'].items():
         l, n = [int(x) for x in k.split('/')]
